@@ -146,3 +146,7 @@ pub use wtransport_proto as proto;
 pub use quinn;
 
 mod driver;
+
+#[cfg(wtransport_verif)]
+#[doc(hidden)]
+pub mod verif;
